@@ -385,8 +385,22 @@ class Engine:
         c = c.strip()
         m = re.match(r"^\[\[? (.*) \]\]?$", c)
         if not m:
-            raise ShUnsupported(f"condition {c}")
+            # a command as condition: it runs with errexit suspended; the branch is taken when it succeeds
+            if any(ch in c for ch in "|&;()`") or c.split()[0] in ("!", "[", "[["):
+                raise ShUnsupported(f"condition {c}")
+            saved = p.errexit
+            p.errexit = False
+            before = len(p.log)
+            out = []
+            for r in self.simple(p, c):
+                failed = len(r.log) > before and r.log[-1][2] == "fail"
+                r.errexit = saved
+                out.append((r, not failed))
+            return out
         t = m.group(1).split()
+        if t and t[0] == "!":
+            inner = c.replace("! ", "", 1)
+            return [(q, not val) for q, val in self.cond(p, inner)]
         if t[0] in ("-f", "-e", "-d") and len(t) == 2:
             b = self.exists(p, self.abspath(p, self.expand(p, t[1])), want_dir=(t[0] == "-d"))
         elif t[0] == "-z" and len(t) == 2:
@@ -426,7 +440,7 @@ class Engine:
         for st in body:
             nxt = []
             for p in paths:
-                if p.exit is not None:
+                if p.exit is not None or p.vars.get("__break"):
                     nxt.append(p)
                     continue
                 nxt += self.step(p, st)
@@ -571,12 +585,17 @@ class Engine:
             if len(words) > 4:
                 raise ShUnsupported("for loop over more than 4 words")
             paths = [p]
+            done = []
             for wv in words:
                 for q in paths:
                     if q.exit is None:
                         q.vars[st.var] = wv
                 paths = self.run_block(paths, st.body)
-            return paths
+                done += [q for q in paths if q.vars.get("__break") or q.exit is not None]
+                paths = [q for q in paths if not q.vars.get("__break") and q.exit is None]
+            for q in done:
+                q.vars.pop("__break", None)
+            return paths + done
         if st.kind == "andor":
             return self.andor(p, st.text)
         return self.simple(p, st.text)
@@ -638,6 +657,9 @@ class Engine:
         if w[0] == "exit":
             p.exit = z3.IntVal(int(w[1]))
             return [p]
+        if t == "break":
+            p.vars["__break"] = ("1",)
+            return [p]
         if w[0] == "echo" and ">>" in w:
             if w.index(">>") != len(w) - 2:
                 raise ShUnsupported(t)
@@ -692,6 +714,31 @@ class Engine:
             def go(q):
                 q.cwd = c
             return self.builtin_fail(p, "cd", self.exists(p, tgt, want_dir=True), go, t)
+        if w[0] == "mkdir" and len(w) == 3 and w[1] == "-p":
+            tgt = self.abspath(p, self.expand(p, w[2]))
+            ex = z3.simplify(self.exists(p, tgt))
+            isd = z3.simplify(self.exists(p, tgt, want_dir=True))
+            out = []
+            # already a directory: nothing happens; absent: created; a file: fails
+            for cond_, label, eff in ((isd, "ok", None), (z3.Not(ex), "ok", "create"), (z3.And(ex, z3.Not(isd)), "fail", None)):
+                cond_ = z3.simplify(cond_)
+                if z3.is_false(cond_):
+                    continue
+                q = p.clone()
+                if not z3.is_true(cond_):
+                    q.pc.append(cond_)
+                    if not self.feasible(q):
+                        continue
+                if label == "ok":
+                    q.log.append((q.inv, "mkdir", "ok", t, None))
+                    if eff:
+                        q.fs.append((tgt, True, True, None))
+                else:
+                    q.log.append((q.inv, "mkdir", "fail", t, z3.IntVal(1)))
+                    if q.errexit:
+                        q.exit = z3.IntVal(1)
+                out.append(q)
+            return out
         if w[0] == "mkdir":
             if len(w) != 2:
                 raise ShUnsupported(t)
